@@ -393,7 +393,9 @@ def main(argv=None):
         import itertools
         nquick = sum(1 for _ in mod.cases(args.tier, random.Random(seed * 1000003 + sum(map(ord, prop)))))
         cap = int(os.environ.get("VERIF_AMPLIFY_FACTOR", "4")) * max(nquick, 2000)
-        cases = load_corpus(prop) + list(itertools.islice(mod.cases(gen_tier, rng), cap))
+        # the every-change cases themselves always run (the cap may cut families off the tail of the thorough generator)
+        cases = (load_corpus(prop) + list(mod.cases(args.tier, random.Random(seed * 1000003 + sum(map(ord, prop)))))
+                 + list(itertools.islice(mod.cases(gen_tier, rng), cap)))
     else:
         cases = load_corpus(prop) + list(mod.cases(gen_tier, rng))
     observed = observe_all(modname, cases, args.jobs)
